@@ -306,6 +306,10 @@ pub struct RunCfg {
     pub labels: Vec<String>,
     pub prefix: Vec<usize>,
     pub issue_only_at_quiescence: bool,
+    /// When set, decisions are taken by LABEL: at decision point i the alternative whose label
+    /// equals `follow[i]` is chosen (used to replay model traces on the real server); a label that
+    /// is not among the enabled alternatives is a divergence.
+    pub follow: Option<Vec<String>>,
 }
 
 /// Run one execution. `on_quiescent(events issued so far, state)` is called on the scheduler
@@ -395,7 +399,23 @@ pub fn run(
             alts.push((l.clone(), if running_enabled { 1 } else { 0 }, other, k));
         }
         let idx = points.len();
-        let chosen = if idx < cfg.prefix.len() { cfg.prefix[idx] } else { 0 };
+        let chosen = match &cfg.follow {
+            Some(f) if idx < f.len() => match alts.iter().position(|a| a.0 == f[idx]) {
+                Some(k) => k,
+                None => {
+                    out.points = points;
+                    out.error = Some(format!("cannot follow: step {idx} wants `{}` but enabled are {:?}", f[idx], alts.iter().map(|a| a.0.clone()).collect::<Vec<_>>()));
+                    return out;
+                }
+            },
+            _ => {
+                if idx < cfg.prefix.len() {
+                    cfg.prefix[idx]
+                } else {
+                    0
+                }
+            }
+        };
         if chosen >= alts.len() {
             out.error = Some(format!("divergence at point {idx}: choice {chosen} of {} alts {:?}", alts.len(), alts));
             return out;
